@@ -856,7 +856,8 @@ func init() {
 				if err != nil {
 					continue
 				}
-				if s := ecc.SharedSecret(ka, x, y); len(s) > 0 && (s[0] == 0 || s[len(s)-1] == 0 && len(s) != 32) {
+				// the shared point computed with the curve arithmetic directly (not with the function under test)
+				if sx, _ := ecc.Curve.ScalarMult(x, y, ka.FillBytes(make([]byte, 32))); sx.BitLen() <= 248 {
 					r.Do("ecdh.sym", []string{hx(ka.FillBytes(make([]byte, 32))), hx(kb.FillBytes(make([]byte, 32)))}, "ecdh-leading-zero", true, "shared x coordinate with a leading zero byte")
 					r.Do("ecdh", []string{hx(ka.FillBytes(make([]byte, 32))), hx(ecc.GetPublicKeyCompressed(kb.FillBytes(make([]byte, 32))))}, "ecdh-leading-zero", true, "")
 					found++
